@@ -94,6 +94,8 @@ import XotModel.Lemmas.ColonWitness
 import XotModel.Lemmas.ParseErase
 import XotModel.Lemmas.LexDelimsWitness
 import XotModel.Lemmas.SpanScopeStr
+import XotModel.Lemmas.SpanScopeText
+import XotModel.Props.C03
 
 namespace XotModel.Props
 open XotModel XotModel.Witness
@@ -602,6 +604,51 @@ theorem C17_scope_strings_fresh {m : Mode} {s : Str} {p : Parsed} (h : parseStri
       ∃ ns, p.env.names[id]? = some (loc.text, ns) ∧
         lookupStr (scopeStrAt p q) pfx.text = some (p.env.namespaceStr ns) :=
   (C17_scope_strings Interner.Reachable.new (x := Interner.new) (by rw [interner_new_env]; exact h) hat).1
+
+/-- C17_scope_frames_text: the frames, read off the TEXT.  The tokens of an accepted text are (up to a
+    version-1.0 XML declaration) the tokens of a well-formed spelling `sns` (`WellNsDoc`; C03_string_accepted_is_denoted),
+    and for every element at `q` there is a chain of spelled elements `e₁ ∋ … ∋ e_k` (`NsPath sns chain`, outermost
+    first: `e₁` a top-level node of `sns`, each next one a child of the one before) such that the frames in force at
+    `q` are, innermost first, what the start tags of `e_k, …, e₁` DECLARE — `declsOf`: for every item `xmlns:p="…"` /
+    `xmlns="…"` of the start tag, in the order written, (`p` resp. the empty prefix, the value decoded as an attribute
+    value) — above `"" ↦ ""` and `xml ↦ http://www.w3.org/XML/1998/namespace`; the innermost element `e_k` of the
+    chain is written with the local name of the node at `q`. -/
+theorem C17_scope_frames_text {x : Interner} (hx : Interner.Reachable x) {m : Mode} {s : Str} {p : Parsed}
+    (h : parseString m x.env s = .ok p)
+    {q : Path} {id : Nat} {ks : List Tree} (hat : p.tree.at? q = some (.node (.element id) ks)) :
+    ∃ sns chain, WellNsDoc sns ∧ NSNode.tokens.tokensList sns = dropDecls (lexMode m s).1 ∧
+      chain ≠ [] ∧ NsPath sns chain ∧
+      scopeStrAt p q = chainFrames chain ++ [[([], [])], [(['x', 'm', 'l'], xmlNsUri)]] ∧
+      ∃ e, chain.getLast? = some e ∧ e.nameLoc = p.env.localName id := by
+  obtain ⟨sns, hw, _, htok, hval, hdec⟩ := C03_string_accepted_is_denoted hx.envBaseNs m s h
+  have hbase := strStack_base (build_envBaseNs hx (show build m (strLen s) x.env (lexMode m s).1 (lexMode m s).2 = .ok p from h))
+  cases ht : p.tree with
+  | node v kids =>
+    rw [ht] at hat hval hdec
+    simp only [Tree.value] at hval
+    subst hval
+    obtain ⟨chain, h1, h2, h3, h4⟩ := scope_frames_document (show decodeNs p.env kids = _ from hdec) hat baseStack
+    refine ⟨sns, chain, hw, htok, h1, h2, ?_, h4⟩
+    rw [scopeStrAt, ht, h3, hbase]
+
+/-- The scoping clause on the text alone: the namespace URI STRING of the element's name is what its prefix AS
+    WRITTEN resolves to over the declarations AS WRITTEN (decoded) of its own and its ancestors' start tags,
+    nearest first. -/
+theorem C17_scope_strings_text {x : Interner} (hx : Interner.Reachable x) {m : Mode} {s : Str} {p : Parsed}
+    (h : parseString m x.env s = .ok p)
+    {q : Path} {id : Nat} {ks : List Tree} (hat : p.tree.at? q = some (.node (.element id) ks)) :
+    ∃ sns chain pfx loc wsp, WellNsDoc sns ∧ NSNode.tokens.tokensList sns = dropDecls (lexMode m s).1 ∧
+      chain ≠ [] ∧ NsPath sns chain ∧ (∃ e, chain.getLast? = some e ∧ e.nameLoc = loc.text) ∧
+      Token.elementStart pfx loc wsp ∈ (lexMode m s).1 ∧
+      (∃ sp, p.spans.get ⟨q, .elementStart⟩ = some sp ∧
+        sliceBytes s sp.start sp.stop = some (tokQName pfx.text loc.text)) ∧
+      ∃ ns, p.env.names[id]? = some (loc.text, ns) ∧
+        lookupStr (chainFrames chain ++ [[([], [])], [(['x', 'm', 'l'], xmlNsUri)]]) pfx.text =
+          some (p.env.namespaceStr ns) := by
+  obtain ⟨sns, chain, hw, htok, h1, h2, h3, e, he, hloc⟩ := C17_scope_frames_text hx h hat
+  obtain ⟨⟨pfx, loc, wsp, hmem, _, hsp, ns, hn, hl⟩, _⟩ := C17_scope_strings hx h hat
+  refine ⟨sns, chain, pfx, loc, wsp, hw, htok, h1, h2, ⟨e, he, ?_⟩, hmem, hsp, ns, hn, by rw [← h3]; exact hl⟩
+  rw [hloc, localName_of_get hn]
 
 /-- Non-vacuity, nearest declaration wins: `<p:a xmlns:p='u'><p:b xmlns:p='w'/><p:c/></p:a>` is accepted from
     `Xot::new()`; the frames at `p:b` are `[p ↦ w]` above `[p ↦ u]` and `p` resolves to `w` there (the name of
